@@ -21,6 +21,19 @@ def checks_for(rel):
     return [p for p in CLAIMED if rel in PROPS[p]["anchors"]["files"]]
 
 
+_BASE = {}
+
+
+def baseline(pid):
+    """Refuted obligations of the unchanged tree (the known findings): never counted as a report of a mutant."""
+    if pid not in _BASE:
+        from pdqverif.__main__ import run_check
+
+        _, chk = run_check(pid, "quick", 0, program=Program(), write=False)
+        _BASE[pid] = {f"{o.rule}:{o.construct}" for r in chk.rules for o in r.obls if o.status == "refuted"}
+    return _BASE[pid]
+
+
 def one(args):
     rel, src, site, pids = args
     from pdqverif.__main__ import run_check
@@ -30,9 +43,10 @@ def one(args):
     except Exception as e:  # noqa: BLE001
         return {"site": site, "file": rel, "skip": str(e)}
     hit = {}
-    for pid in pids:
+    # checks anchored in the mutated file first, then every other check
+    for pid in pids + [p for p in CLAIMED if p not in pids]:
         _, chk = run_check(pid, "quick", 0, program=prog, write=False)
-        ref = [f"{o.rule}:{o.construct}" for r in chk.rules for o in r.obls if o.status == "refuted"]
+        ref = [x for x in (f"{o.rule}:{o.construct}" for r in chk.rules for o in r.obls if o.status == "refuted") if x not in baseline(pid)]
         if ref or chk.errors:
             hit[pid] = (ref[:1] or chk.errors[:1])
             break
